@@ -52,3 +52,17 @@ pub open spec fn addr_list(c: DnsCache, host: Seq<char>) -> Seq<DnsRecordIntf> {
 pub open spec fn holds_addresses(m: Map<String, Vec<DnsRecordIntf>>) -> bool {
     forall|k: String, i: int| m.contains_key(k) && 0 <= i < m[k]@.len() ==> payload_intf((#[trigger] m[k]@[i]).record.payload()) is Some
 }
+
+// `map.entry(k).or_insert_with(HashSet::new).insert(x)`: x joins the set stored under k (an empty one being stored first)
+#[verifier::external_body]
+pub fn vx_entry_set_insert<T>(m: &mut HashMap<String, HashSet<T>>, k: String, x: T)
+    ensures
+        final(m)@.dom() == old(m)@.dom().insert(k),
+        forall|j: String| j != k && old(m)@.contains_key(j) ==> #[trigger] final(m)@[j] == old(m)@[j],
+        final(m)@[k]@ == (if old(m)@.contains_key(k) { old(m)@[k]@ } else { Set::<T>::empty() }).insert(x),
+{ unimplemented!() }
+// an address listed under the name it was received with comes from an unexpired record among the first n held for the host
+pub open spec fn found_from(k: String, a: ScopedIp, l: Seq<DnsRecordIntf>, n: int, now: u64) -> bool {
+    exists|i: int| 0 <= i < n && !(now >= (#[trigger] l[i]).record.rec().expires) && payload_intf(l[i].record.payload()) is Some
+        && k@ == rec_name(l[i].record.rec()) && a == payload_scoped(l[i].record.payload())
+}
